@@ -28,8 +28,8 @@ Proof.
   apply bind_ok in H. destruct H as ([fl q] & _ & H).
   apply bind_ok in H. destruct H as (? & _ & H).
   apply bind_ok in H. destruct H as ([fs q'] & Hf & H). cbv zeta in H.
-  destruct (len (b0 :: r) <? _) eqn:E; [discriminate|]. injection H as <-. cbv beta iota delta [m_bytes m_body_offset m_qf].
-  split; [reflexivity|]. split; [lia|]. exists fs. split; [eapply de_fields_ok; eauto|reflexivity].
+  destruct (len (b0 :: r) <? _) eqn:E; [discriminate|]. apply N.ltb_ge in E. injection H as <-.
+  split; [reflexivity|]. split; [exact E|]. exists fs. split; [eapply de_fields_ok; eauto|reflexivity].
 Qed.
 
 (* ---------- cached field positions ---------- *)
